@@ -4,13 +4,19 @@ from OUTSIDE the library (module attributes shadowed inside a context manager).
 
 A *mutating call* is announced to the `Tracer` before it is executed. When the tracer's crash
 index is reached the call is NOT executed, the tracer is marked dead and `Crash` (a
-BaseException) is raised; from then on every further mutating call also raises, so nothing the
-library does while unwinding (`except:` / `with` exits) reaches the disk -- as after a killed
-process.
+BaseException) is raised. Two kinds of death:
+  hard (kill -9): from then on every further mutating call also raises, so nothing the library does
+       while unwinding (`except:` / `with` exits) reaches the disk;
+  soft (KeyboardInterrupt / SystemExit): the exception unwinds through the library's handlers and
+       whatever they do to the disk IS executed and recorded in `Tracer.after` (the model says: nothing).
+Calls made while the tracer is not armed (constructor, loading) are recorded in `Tracer.idle`.
 
-History file: text written through `open(path, "a")` is block buffered by Python, header and row
-reach the file in one write at close. The proxy keeps that buffer itself: `open_a` (creates the
-file when absent) and `flush` (all buffered text in one write) are the two mutating calls.
+History file: every `f.write(text)` on the file object returned by `open(path, "a")` is a mutating
+call of its own (`hwrite`) and reaches the file at once (write + flush): `csv.writer.writerow` makes
+exactly one such call per line, so "header line written, data row not" is a crash point (it is what
+an interrupt between the two `writerow` calls leaves behind: the `with` block flushes the header).
+`open_a` (creates the file when absent) is one more call. A torn `hwrite` of a data row writes the
+first half of the line.
 """
 import builtins
 import contextlib
@@ -27,29 +33,39 @@ class Tracer:
         self.ops = []          # executed mutating calls of the current update: [kind, arg...]
         self.crash_at = crash_at
         self.torn = torn
+        self.soft = False
         self.dead = False
         self.armed = False     # crash index counts only calls made while armed
         self.n = 0
         self.unexpected = []   # mutating entry points the model knows nothing about
+        self.after = []        # soft death: mutating calls made while the exception unwinds
+        self.idle = []         # mutating calls made while not armed (constructor, load, ...)
 
-    def arm(self, crash_at, torn=False):
+    def arm(self, crash_at, torn=False, soft=False):
         self.ops = []
         self.n = 0
         self.crash_at = crash_at
         self.torn = torn
+        self.soft = soft
         self.armed = True
 
     def disarm(self):
         self.armed = False
         self.crash_at = None
 
-    def mut(self, kind, *args):
+    def mut(self, kind, *args, tearable=False):
         """Announce a mutating call. Returns True when the call is to be torn (write half, die)."""
         if self.dead:
+            if self.soft:
+                self.after.append([kind] + [str(a) for a in args[:2]])
+                return False
             raise Crash()
-        if self.armed and self.crash_at is not None and self.n == self.crash_at:
+        if not self.armed:
+            self.idle.append([kind] + [str(a) for a in args[:2]])
+            return False
+        if self.crash_at is not None and self.n == self.crash_at:
             self.dead = True
-            if self.torn and kind == "write":
+            if self.torn and tearable:
                 return True
             raise Crash()
         self.n += 1
@@ -124,7 +140,7 @@ class TorchProxy:
 
     def save(self, obj, f, *a, **k):
         name = getattr(f, "name", None) if not isinstance(f, (str, bytes)) else f
-        torn = self._tr.mut("write", str(name))
+        torn = self._tr.mut("write", str(name), tearable=True)
         if torn:
             import io
             b = io.BytesIO()
@@ -141,15 +157,21 @@ class TorchProxy:
 
 
 class _AppendFile:
-    """Text file opened for append/write with Python-level block buffering made explicit."""
+    """Text file opened for append/write: every write() is a mutating call that reaches the disk at once."""
 
     def __init__(self, tr, real, path):
         self._tr, self._real, self._path = tr, real, path
-        self._buf = []
         self._closed = False
 
     def write(self, s):
-        self._buf.append(s)
+        # a data row can be torn; the header line (first field "epoch") is atomic in the model
+        torn = self._tr.mut("hwrite", str(self._path), s, tearable=not s.startswith("epoch,"))
+        if torn:
+            self._real.write(s[: len(s) // 2])
+            self._real.flush()
+            raise Crash()
+        self._real.write(s)
+        self._real.flush()
         return len(s)
 
     def writelines(self, ls):
@@ -157,25 +179,13 @@ class _AppendFile:
             self.write(s)
 
     def flush(self):
-        self._push()
-
-    def _push(self):
-        if not self._buf:
-            return
-        text = "".join(self._buf)
-        self._tr.mut("flush", str(self._path), text)
-        self._buf = []
-        self._real.write(text)
-        self._real.flush()
+        pass
 
     def close(self):
         if self._closed:
             return
         self._closed = True
-        try:
-            self._push()
-        finally:
-            self._real.close()
+        self._real.close()
 
     def __enter__(self):
         return self
@@ -188,10 +198,12 @@ class _AppendFile:
 def make_open(tr):
     def _open(path, mode="r", *a, **k):
         if any(c in mode for c in "wax+"):
-            if "b" in mode:
-                tr.unexpected.append(f"open({mode})")
             tr.mut("open_" + mode.replace("t", ""), str(path), _os.path.exists(path))
             real = builtins.open(path, mode, *a, **k)
+            if "b" in mode or "+" in mode:
+                # a way of writing the model knows nothing about: reported, and left to work as it is
+                tr.unexpected.append(f"open({mode})")
+                return real
             return _AppendFile(tr, real, path)
         return builtins.open(path, mode, *a, **k)
     return _open
